@@ -36,18 +36,25 @@ def mappingUsable (now : Nat) (m : PortMapping) : Bool :=
   (match m.ExpiresAt with | none => true | some t => !decide (t < now)) &&
   m.Status == Gen.models.MappingStatusActive
 
+/-- The client the connection is authenticated as (0 = not authenticated): the client a completed handshake
+established on its control connection; for a connection without handshake, the client its transport asserts when
+that transport vouches for its peer (`CanCreateTemporaryControlConn`). -/
+def provenClient (id : ConnIdent) : Nat :=
+  if id.hasControl then (if id.authenticated then id.clientID else 0)
+  else if id.tempOK then id.streamClientID else 0
+
 /-- Entitlement, exactly the property's clause, for the mapping of the addressed tunnel. -/
 def entitledB (w : World) (id : ConnIdent) (req : Req) (ts : TunnelState) : Bool :=
-  id.hasControl && id.authenticated && id.clientID != 0 &&
+  provenClient id != 0 &&
   match w.getPortMapping (tunnelMappingID req ts) with
   | none => false                                   -- unknown mapping
   | some m =>
     mappingUsable w.now m &&
     (-- the mapping's listening client presenting the mapping id
-     (req.MappingID == m.ID && id.clientID == m.ListenClientID) ||
+     (req.MappingID == m.ID && provenClient id == m.ListenClientID) ||
      -- the listening or target client presenting the mapping's secret
      (req.SecretKey != "" && req.SecretKey == m.SecretKey &&
-       (id.clientID == m.ListenClientID || id.clientID == m.TargetClientID)))
+       (provenClient id == m.ListenClientID || provenClient id == m.TargetClientID)))
 
 /-- The property on one observation: a request that is not entitled is refused — failure acknowledgement,
 nothing attached anywhere, no tunnel traffic.  (An entitled request may be served or not.) -/
